@@ -15,12 +15,29 @@ A case is a SCRIPT (JSON-able list of ops) run against one GPyRegression instanc
   ['posterior', h, queries]                BolfiPosterior(model, threshold=h, prior=P): .threshold == h (h = 0 and 0.0 included); logpdf = log Phi((h-m)/sqrt(v)) + log prior inside the
                                            bounds (m, v from GPy directly), -inf outside, closed on the boundary, answer shapes;
                                            gradient_logpdf vs central difference of logpdf at interior points
+  ['query', api, q]                        HISTORY op: one of predict / predict_mean / predict_var / predictive_gradients / predictive_gradient_mean (skipped if the
+                                           class has no such method) at ONE point q, compared with GPy's own answer for the CURRENT _gp; the failure signature
+                                           records the last state-changing operation and whether q had been queried before it (memo / cache staleness route)
+  ['copy'] / ['swap']                      model.copy() becomes the surrogate under test (the original is kept) / switch back to the other object
+  ['tails', points, targets, grad_zmin]    TAIL op: for every target (a number z: threshold := mean(p0) + z * sd(p0) of GPy's noisy prediction at the first point;
+                                           or ['h', value]: that threshold) a BolfiPosterior is built and _unnormalized_loglikelihood / logpdf at the in-bounds
+                                           points (each alone as 2-D row and as point / scalar, and all together in one batch with an outside row) must equal
+                                           scipy.special.log_ndtr((h - mean)/sd) (+ log prior) with a RELATIVE tolerance and be finite; the analytic gradient of
+                                           the log-likelihood is compared with phi/Phi (evaluated as exp(logpdf - log_ndtr)) * dz/dx from GPy's gradients at the
+                                           rows whose z >= grad_zmin
 Oracles are independent of elfi's fast path.  `shim=True` runs the script with the module-level name `float` of gpy_regression.py bound
 to a scalar extraction that accepts 1-element arrays (repairs defect F12 IN-PROCESS, nothing is written) so that what lies behind F12
 (the stale-cache defect F13) can be replayed on a tree where F12 is still open; such inputs carry "shim": true.
 Bound (quick): dims 1-3, 4 random scripts per dim, evidence sets of 3-8 points, 1-3 interleaved updates/optimisations of 1-3 points
-(max_opt_iters <= 5), queries inside / outside / on the bounds."""
+(max_opt_iters <= 5), queries inside / outside / on the bounds.
+History stand-in (run_history): ONE surrogate per dim (1, 2), max_opt_iters 12 (successive optimisations keep moving the hyper-parameters; the evidence grows in
+between), kept in the sampling phase; every pair (update(optimize=False) | update(optimize=True) | optimize() | leave + re-enter the sampling phase | copy()) x
+(predict | predict_mean | predict_var | predictive_gradients | predictive_gradient_mean | BolfiPosterior.logpdf + gradient_logpdf): the point is queried through
+every API, the operation runs, the SAME point is the first query after it through the API under test, then two other earlier points and a fresh point through all.
+Tail stand-in (run_tails): dims 1-2, z in {-1000, -100, -40, -38.5, -37, -30, -10, -1, 0, 1, 10, 40} by choice of the threshold, plus a near-deterministic
+(optimised, noise variance ~1e-7) surrogate with thresholds at / below the smallest discrepancy queried at the corners of the box; slow and fast path."""
 import builtins
+import contextlib
 import math
 
 import numpy as np
@@ -28,6 +45,17 @@ import numpy as np
 from pyvc import native
 
 TOL = 1e-6
+APIS = ('predict', 'predict_mean', 'predict_var', 'predictive_gradients', 'predictive_gradient_mean')
+GRAD_TAIL_ZMIN = -30.0      # the analytic gradient is compared in the tails for z >= this (see contracts/c10.py NOT_PROVED: pdf/cdf is 0/0 below about -38)
+
+
+def _one_thread():
+    """tiny matrices: BLAS threads only fight over a busy machine (94 s -> 4 s for the quick tier when the load is high)"""
+    try:
+        from threadpoolctl import threadpool_limits
+        return threadpool_limits(limits=1)
+    except Exception:
+        return contextlib.nullcontext()
 
 
 def _mods():
@@ -173,6 +201,139 @@ def _check_posterior(post_mod, model, h, queries):
                                       'row %s coordinate %d: gradient_logpdf = %r, central difference of logpdf = %r' % (rows[r].tolist(), c, float(grad[r, c]), num))
 
 
+def _check_query(model, api, q, state):
+    """one fast/slow-path API at ONE point against GPy on the same object -> False if the class has no such method"""
+    if not hasattr(model, api):
+        return False
+    q = np.asarray(q, dtype=float).reshape((-1, model.input_dim))
+    gp = model._gp
+    if api.startswith('predict_') or api == 'predict':
+        rm, rv = gp.predict(q)
+        ref = {'predict': (('mean', rm), ('var', rv)), 'predict_mean': (('mean', rm),), 'predict_var': (('var', rv),)}[api]
+    else:
+        gm, gv = gp.predictive_gradients(q)
+        gm = gm[:, :, 0]
+        ref = (('grad_mean', gm), ('grad_var', gv)) if api == 'predictive_gradients' else (('grad_mean', gm),)
+    key = q.tobytes()
+    where = 'revisited' if key in state['seen_before_op'] else 'fresh'
+    tag = 'fast' if (model.is_sampling and getattr(model, '_kernel_is_default', False)) else 'slow'
+    ctx = '%s-path-%s-point-after-%s' % (tag, where, state['last_op'])
+    try:
+        got = getattr(model, api)(q)
+    except Exception as e:
+        if isinstance(e, native.NativeTimeout):
+            raise
+        raise Failure('c10:history-%s-raises-%s-%s' % (api, type(e).__name__, ctx), '%s(%s) raised %s: %s (%s)' % (api, q.tolist(), type(e).__name__, str(e)[:120], ctx))
+    if not isinstance(got, tuple):
+        got = (got,)
+    if len(got) != len(ref):
+        raise Failure('c10:history-%s-arity' % api, '%s returned %d values, expected %d' % (api, len(got), len(ref)))
+    for (name, r), g in zip(ref, got):
+        if not _close(g, r):
+            raise Failure('c10:history-%s-%s-differs-from-GPy-%s' % (api, name, ctx),
+                          '%s(%s): %s = %s, GPy on the same object gives %s (%s; %d state-changing operations so far)' %
+                          (api, q.tolist(), name, np.asarray(g).ravel()[:4].tolist(), np.asarray(r).ravel()[:4].tolist(), ctx, state['n_ops']))
+    state['seen'].add(key)
+    return True
+
+
+def _rel_close(a, b, rtol, atol):
+    a, b = np.asarray(a, dtype=float), np.asarray(b, dtype=float)
+    if a.shape != b.shape:
+        return False
+    with np.errstate(all='ignore'):
+        fin = np.isfinite(a) & np.isfinite(b)
+        return bool(np.all(np.where(fin, np.abs(a - b) <= rtol * np.abs(b) + atol, a == b)))
+
+
+def _check_tails(post_mod, model, points, targets, grad_zmin, counts):
+    """log density (and the gradient of the log-likelihood for z >= grad_zmin) far in the tails against scipy.special.log_ndtr, RELATIVE tolerance"""
+    import scipy.stats as ss
+    dim = model.input_dim
+    prior = Prior(dim)
+    gp = model._gp
+    fast = bool(model.is_sampling and getattr(model, '_kernel_is_default', False))
+    rtol = 1e-4 if fast else 1e-9          # the fast path's own mean / sd differ from GPy's in the last digits; z^2/2 amplifies a relative error of z twice
+    P = np.asarray(points, dtype=float).reshape((-1, dim))
+    lo = np.array([b[0] for b in model.bounds], dtype=float)
+    hi = np.array([b[1] for b in model.bounds], dtype=float)
+    if not np.all((P >= lo) & (P <= hi)):
+        raise ValueError('tails: the points must lie inside the bounds')
+    outside = (hi + 1.0)[None, :]
+    m0, v0 = gp.predict(P[:1])
+    for tgt in targets:
+        h = float(tgt[1]) if isinstance(tgt, (list, tuple)) else float(m0[0, 0] + float(tgt) * np.sqrt(v0[0, 0]))
+        post = post_mod.BolfiPosterior(model, threshold=h, prior=prior, n_inits=2, max_opt_iters=20)
+        queries = [(P[r:r + 1], [r]) for r in range(len(P))]
+        queries += [((P[r] if dim > 1 else P[r, 0]), [r]) for r in range(len(P))]         # a single point given 1-D (dim > 1) / as a scalar (dim = 1)
+        if not fast:          # the fast path is specified for ONE query row (contracts/c10.py ASSUMPTIONS)
+            queries.append((np.vstack([P[:1], outside, P[1:]]), [0, None] + list(range(1, len(P)))))
+        for q, rows in queries:
+            qa = np.asarray(q, dtype=float)
+            ins = [r for r in rows if r is not None]
+            m, v = gp.predict(P[ins])
+            sd = np.sqrt(v[:, 0])
+            z = (h - m[:, 0]) / sd
+            want_ll = np.full(len(rows), -np.inf)
+            want_ll[[i for i, r in enumerate(rows) if r is not None]] = _log_phi(z)
+            want_lp = want_ll.copy()
+            want_lp[[i for i, r in enumerate(rows) if r is not None]] += np.atleast_1d(prior.logpdf(P[ins]))
+            counts['cases'] += 1
+            counts['deep'] += int(np.sum(z < -38.5))
+            for fn, want in (('_unnormalized_loglikelihood', want_ll), ('logpdf', want_lp)):
+                try:
+                    with np.errstate(all='ignore'):
+                        got = np.atleast_1d(np.asarray(getattr(post, fn)(qa), dtype=float))
+                except Exception as e:
+                    if isinstance(e, native.NativeTimeout):
+                        raise
+                    raise Failure('c10:tail-%s-raises-%s' % (fn, type(e).__name__), '%s(%s) with threshold %r raised %s: %s' % (fn, qa.tolist(), h, type(e).__name__, str(e)[:120]))
+                if got.shape != want.shape:
+                    raise Failure('c10:tail-%s-shape' % fn, '%s of a query of shape %s has %s entries, expected %s' % (fn, qa.shape, got.shape, want.shape))
+                for i, r in enumerate(rows):
+                    if r is None:
+                        if not (np.isinf(got[i]) and got[i] < 0):
+                            raise Failure('c10:tail-%s-not-minus-inf-outside' % fn, 'row %d of %s is outside the bounds but %s = %r' % (i, qa.tolist(), fn, float(got[i])))
+                        continue
+                    zi_ = float(z[ins.index(r)])
+                    side = 'lower' if zi_ < 0 else 'upper'
+                    if not np.isfinite(got[i]):
+                        raise Failure('c10:tail-%s-not-finite-inside-%s-tail' % (fn, side),
+                                      '%s(%s) = %r at a point inside the bounds (threshold %r, z = (h - mean)/sd = %.6g): the definition log Phi(z)%s gives %r' %
+                                      (fn, P[r].tolist(), float(got[i]), h, zi_, ' + log prior' if fn == 'logpdf' else '', float(want[i])))
+                    if not _rel_close(got[i], want[i], rtol, 1e-12):
+                        raise Failure('c10:tail-%s-value-%s-tail' % (fn, side),
+                                      '%s(%s) = %r (threshold %r, z = %.6g): log Phi(z)%s = %r (relative tolerance %g)' %
+                                      (fn, P[r].tolist(), float(got[i]), h, zi_, ' + log prior' if fn == 'logpdf' else '', float(want[i]), rtol))
+        # gradient of the log-likelihood: phi(z)/Phi(z) * dz/dx, with dz/dx = -dmean/sd - (h - mean) dvar / (2 sd^3)
+        m, v = gp.predict(P)
+        gm, gv = gp.predictive_gradients(P)
+        gm = gm[:, :, 0]
+        sd = np.sqrt(v)
+        z = (h - m) / sd
+        sel = np.where(z[:, 0] >= grad_zmin)[0]
+        if fast:
+            sel = sel[:1]
+        if len(sel):
+            with np.errstate(all='ignore'):
+                mills = np.exp(ss.norm.logpdf(z) - _log_phi(z))
+                want_g = (mills * (-gm / sd - (h - m) * gv / (2.0 * sd ** 3)))[sel]
+                try:
+                    got_g = np.asarray(post._gradient_unnormalized_loglikelihood(P[sel]), dtype=float)
+                except Exception as e:
+                    if isinstance(e, native.NativeTimeout):
+                        raise
+                    raise Failure('c10:tail-gradient-raises-%s' % type(e).__name__, '_gradient_unnormalized_loglikelihood(%s) raised %s: %s' % (P[sel].tolist(), type(e).__name__, str(e)[:120]))
+            counts['cases'] += 1
+            if got_g.shape != want_g.shape:
+                raise Failure('c10:tail-gradient-shape', 'gradient of the log-likelihood at %d points (dim %d) has shape %s' % (len(sel), dim, got_g.shape))
+            if not _rel_close(got_g, want_g, 1e-3 if fast else 1e-6, 1e-9):
+                bad = int(np.argmax(np.any(~(np.abs(got_g - want_g) <= (1e-3 if fast else 1e-6) * np.abs(want_g) + 1e-9), axis=1)))
+                raise Failure('c10:tail-gradient-differs-from-derivative',
+                              'gradient of the log-likelihood at %s (threshold %r, z = %.6g) = %s, phi(z)/Phi(z) * dz/dx = %s' %
+                              (P[sel][bad].tolist(), h, float(z[sel[bad], 0]), got_g[bad].tolist(), want_g[bad].tolist()))
+
+
 def _shim_float(x=0.0):
     a = np.asarray(x)
     if a.ndim >= 1 and a.size == 1:
@@ -180,7 +341,7 @@ def _shim_float(x=0.0):
     return builtins.float(x)
 
 
-def run_script(script, shim=False, seconds=90):
+def run_script(script, shim=False, seconds=90, stats=None):
     """-> None if the property holds on the script, else dict(signature, what, at).  A script that runs out of time is INCONCLUSIVE
     (dict with inconclusive=True: machine load; never reported as a failure).  A NativeTimeout that fires inside GPyRegression.optimize's
     `try` surfaces as the AttributeError of its `except np.linalg.linalg.LinAlgError` clause (numpy 2.x has no np.linalg.linalg): also a timeout."""
@@ -190,9 +351,16 @@ def run_script(script, shim=False, seconds=90):
     model = None
     want_X = want_Y = None
     state = dict(fast_used=False, changed=False)      # stale-cache route = a fast-path call, then an evidence / hyper-parameter change
+    state.update(seen=set(), seen_before_op=set(), last_op='start', n_ops=0, moved=0, absent=set(), tails=dict(cases=0, deep=0), other=None)
+    if stats is not None:
+        stats['state'] = state
+
+    def changed(name, moved=True):
+        state.update(last_op=name, n_ops=state['n_ops'] + 1, seen_before_op=set(state['seen']), changed=True)
+        state['moved'] += 1 if moved else 0
     step = -1
     try:
-        with native.time_limit(seconds):
+        with native.time_limit(seconds), _one_thread():
             for step, op in enumerate(script):
                 k = op[0]
                 if k == 'new':
@@ -212,15 +380,29 @@ def run_script(script, shim=False, seconds=90):
                     model.update(X, Y, bool(op[3]))
                     want_X = np.concatenate([want_X, X.reshape((-1, model.input_dim))])
                     want_Y = np.concatenate([want_Y, Y.reshape((-1, 1))])
-                    state['changed'] = True
+                    changed('update(optimize=%s)' % bool(op[3]))
                     if not (np.array_equal(np.asarray(model.X), want_X) and np.array_equal(np.asarray(model.Y), want_Y)):
                         raise Failure('c10:evidence-order', 'after update the evidence is not old ++ new in order: X = %s, expected %s' %
                                       (np.asarray(model.X).ravel()[:6].tolist(), want_X.ravel()[:6].tolist()))
                     if model.n_evidence != len(want_X):
                         raise Failure('c10:evidence-count', 'n_evidence = %r, expected %d' % (model.n_evidence, len(want_X)))
                 elif k == 'optimize':
+                    before = np.array(model._gp.param_array, dtype=float)
                     model.optimize()
-                    state['changed'] = True
+                    after = np.array(model._gp.param_array, dtype=float)
+                    changed('optimize()', moved=bool(np.max(np.abs(after - before) / (1e-12 + np.abs(before))) > 1e-3))
+                elif k == 'copy':
+                    state['other'] = (model, want_X, want_Y)
+                    model = model.copy()
+                    changed('copy()', moved=False)
+                elif k == 'swap':
+                    (model, want_X, want_Y), state['other'] = state['other'], (model, want_X, want_Y)
+                    changed('switch-to-the-other-copy', moved=False)
+                elif k == 'query':
+                    if not _check_query(model, op[1], op[2], state):
+                        state['absent'].add(op[1])
+                elif k == 'tails':
+                    _check_tails(post_mod, model, op[1], op[2], float(op[3]) if len(op) > 3 else GRAD_TAIL_ZMIN, state['tails'])
                 elif k in ('optimize-fails', 'update-optimize-fails'):
                     def failing(*a, **kw):
                         raise np.linalg.LinAlgError('not positive definite, even with jitter.')
@@ -247,13 +429,18 @@ def run_script(script, shim=False, seconds=90):
                             del model._make_gpy_instance
                             if 'optimize' in model._gp.__dict__:
                                 object.__delattr__(model._gp, 'optimize')
-                    state['changed'] = True
+                    changed('failed-optimize')
                     if not (np.array_equal(np.asarray(model.X), want_X) and np.array_equal(np.asarray(model.Y), want_Y)):
                         raise Failure('c10:evidence-after-failed-optimize', 'after a failed hyper-parameter optimisation the evidence is not old ++ new')
                 elif k == 'sampling':
+                    if bool(op[1]) and not model.is_sampling:
+                        state['seen_before_op'] = set(state['seen'])
+                        if not state['last_op'].endswith('+enter-sampling-phase'):
+                            state['last_op'] += '+enter-sampling-phase'
                     model.is_sampling = bool(op[1])
                 elif k == 'predict':
                     _check_predict(model, op[1], state['fast_used'] and state['changed'])
+                    state['seen'].add(np.asarray(op[1], dtype=float).reshape((-1, model.input_dim)).tobytes())
                     if model.is_sampling:
                         state.update(fast_used=True, changed=False)
                 elif k == 'posterior':
@@ -440,3 +627,135 @@ def run(tier='quick', seed=0, first_failure_only=False):
     if skipped:
         bound += '; %d script(s) ran out of time and were skipped (inconclusive)' % skipped
     return dict(name='gp-fast-vs-slow+posterior', bound=bound, rule=rule, cases=cases, nontrivial=nontrivial, failures=failures)
+
+
+# ---------------------------------------------------------------------------------------------- history stand-in (one surrogate, every operation x every API)
+HISTORY_OPS = ('update0', 'optimize', 'update1', 'reenter', 'copy')
+HISTORY_APIS = APIS + ('posterior',)
+
+
+def make_history(rs, dim, iters=12, apis=HISTORY_APIS, ops=HISTORY_OPS):
+    bounds = [[float(-1 - rs.rand()), float(1 + 2 * rs.rand())] for _ in range(dim)]
+    lo = np.array([b[0] for b in bounds])
+    hi = np.array([b[1] for b in bounds])
+    pts = lambda n: (lo + (hi - lo) * (0.02 + 0.96 * rs.rand(n, dim)))
+    fy = lambda X: (np.sqrt(np.sum((X - 0.3) ** 2, axis=1)) + 0.05 * np.sin(7.0 * X[:, 0]) + 0.1 * rs.randn(len(X)) + 1.0)
+    X = pts(8)
+    Y = fy(X)
+    h = float(np.percentile(Y, 30))
+    script = [['new', dim, bounds, iters, None], ['update', X.tolist(), Y.tolist(), False], ['sampling', True]]
+    revisit = [pts(1), pts(1), X[int(np.argmin(Y))][None, :]]          # the last one: the best evidence point (where a chain is started)
+
+    def q(api, p):
+        return ['posterior', h, [np.asarray(p).tolist()]] if api == 'posterior' else ['query', api, np.asarray(p).tolist()]
+    for p in revisit:
+        script += [q(a, p) for a in apis]
+    k = 0
+    for api in apis:
+        for op in ops:
+            x0 = revisit[k % len(revisit)]
+            k += 1
+            script += [q('posterior', x0)] + [q(a, x0) for a in apis if a != 'posterior' and a != api] + ([q(api, x0)] if api != 'posterior' else [])
+            Xn = pts(int(rs.randint(1, 3)))
+            if op == 'update0':
+                script.append(['update', Xn.tolist(), fy(Xn).tolist(), False])
+            elif op == 'update1':
+                script.append(['update', Xn.tolist(), fy(Xn).reshape((-1, 1)).tolist(), True])
+            elif op == 'optimize':
+                script.append(['optimize'])
+            elif op == 'reenter':
+                script += [['sampling', False], ['sampling', True]]
+            elif op == 'copy':
+                script += [['copy'], ['optimize']]                          # the copy is re-optimised; afterwards the ORIGINAL is queried again
+            script.append(q(api, x0))                                        # the first query after the operation: the point queried last before it
+            fresh = pts(1)
+            for p in [r for r in revisit if r is not x0] + [fresh]:
+                script += [q(a, p) for a in apis]
+            if op == 'copy':
+                script += [['swap'], q(api, x0)] + [q(a, fresh) for a in apis]
+    return script
+
+
+def run_history(tier='quick', seed=0):
+    dims = (1, 2) if tier == 'quick' else (1, 2, 3)
+    cases = nontrivial = skipped = 0
+    failures, seen, absent = [], set(), set()
+    for dim in dims:
+        for t in range(1 if tier == 'quick' else 3):
+            script = make_history(np.random.RandomState(7000 * seed + 10 * dim + t), dim)
+            st = {}
+            f = run_script(script, stats=st, seconds=120)
+            state = st.get('state', {})
+            absent |= state.get('absent', set())
+            upto = len(script) if f is None else f['at'] + 1
+            if f is not None and f.get('inconclusive'):
+                skipped += 1
+                continue
+            cases += sum(1 for op in script[:upto] if op[0] in ('query', 'posterior', 'update'))
+            nontrivial += sum(1 for i, op in enumerate(script[:upto]) if op[0] in ('query', 'posterior') and i > 0 and script[i - 1][0] in ('update', 'optimize', 'sampling', 'swap'))
+            if f is not None and f['signature'] not in seen:
+                seen.add(f['signature'])
+                failures.append(dict(signature=f['signature'], what=f['what'], input=dict(script=script, shim=False, failed_at_op=f['at'])))
+    bound = ('dims %s, one surrogate each (seed %d), 8 + 30 x (0-2) evidence points, max_opt_iters 12, sampling phase; operations %s x first query after the operation at the '
+             'point queried last before it through %s, then 2 earlier points + 1 fresh point through all' % ('-'.join(map(str, dims)), seed, ' | '.join(HISTORY_OPS), ' | '.join(HISTORY_APIS)))
+    if absent:
+        bound += '; not offered by the class (skipped): ' + ', '.join(sorted(absent))
+    if skipped:
+        bound += '; %d script(s) ran out of time and were skipped (inconclusive)' % skipped
+    return dict(name='gp-history-on-one-surrogate', bound=bound,
+                rule='cases = API / posterior / evidence-order checks executed; non-trivial = first query after an operation, at the point queried last before it',
+                cases=cases, nontrivial=nontrivial, failures=failures)
+
+
+# ---------------------------------------------------------------------------------------------- tail stand-in
+TAIL_Z = (-1000.0, -100.0, -40.0, -38.5, -37.0, -30.0, -10.0, -1.0, 0.0, 1.0, 10.0, 40.0)
+
+
+def make_tails(rs, dim, natural=False):
+    bounds = [[float(-1 - rs.rand()), float(1 + 2 * rs.rand())] for _ in range(dim)]
+    lo = np.array([b[0] for b in bounds])
+    hi = np.array([b[1] for b in bounds])
+    pts = lambda n: (lo + (hi - lo) * (0.02 + 0.96 * rs.rand(n, dim)))
+    X = pts(10)
+    if not natural:
+        Y = np.sum((X - 0.2) ** 2, axis=1) + 0.1 * rs.randn(len(X)) + 1.0
+        P = pts(3)
+        return [['new', dim, bounds, 5, None], ['update', X.tolist(), Y.tolist(), False], ['tails', P.tolist(), list(TAIL_Z), GRAD_TAIL_ZMIN],
+                ['sampling', True], ['tails', P[::-1].tolist(), list(TAIL_Z), GRAD_TAIL_ZMIN], ['sampling', False]]
+    # near-deterministic discrepancy, optimised surrogate (noise variance -> ~1e-7), strict thresholds, corners of the box (far from the optimum)
+    f = lambda X: np.sqrt(np.sum((X - 0.3) ** 2, axis=1)) + 0.1
+    Y = f(X)
+    corners = np.array([[lo[c] if (i >> c) & 1 else hi[c] for c in range(dim)] for i in range(2 ** dim)])
+    P = np.vstack([corners, pts(1)])
+    hs = [['h', float(np.min(Y))], ['h', float(np.min(Y)) - 0.05], ['h', float(np.log(1e-3))]]
+    return [['new', dim, bounds, 60, None], ['update', X.tolist(), Y.tolist(), True], ['optimize'], ['tails', P.tolist(), hs, GRAD_TAIL_ZMIN],
+            ['sampling', True], ['tails', P.tolist(), hs, GRAD_TAIL_ZMIN], ['sampling', False]]
+
+
+def run_tails(tier='quick', seed=0):
+    cases = nontrivial = skipped = 0
+    failures, seen = [], set()
+    dims = (1, 2) if tier == 'quick' else (1, 2, 3)
+    for dim in dims:
+        for natural in (False, True):
+            script = make_tails(np.random.RandomState(9000 * seed + 10 * dim + int(natural)), dim, natural)
+            st = {}
+            f = run_script(script, stats=st, seconds=120)
+            if f is not None and f.get('inconclusive'):
+                skipped += 1
+                continue
+            tl = st.get('state', {}).get('tails', {})
+            cases += tl.get('cases', 0)
+            nontrivial += tl.get('deep', 0)
+            if f is not None and f['signature'] not in seen:
+                seen.add(f['signature'])
+                failures.append(dict(signature=f['signature'], what=f['what'], input=dict(script=script, shim=False, failed_at_op=f['at'])))
+    bound = ('dims %s (seed %d): thresholds placed at z = (h - mean)/sd in %s of 3 in-bounds points (10 evidence points, heuristic hyper-parameters) + an optimised '
+             'near-deterministic surrogate with thresholds min(y), min(y) - 0.05, log(1e-3) at the corners of the box; slow and fast path; 2-D row / point / scalar / '
+             'batch-with-an-outside-row queries; oracle scipy.special.log_ndtr + GPy, relative tolerance 1e-9 (slow path) / 1e-4 (fast path); gradient of the '
+             'log-likelihood compared for z >= %g only' % ('-'.join(map(str, dims)), seed, list(TAIL_Z), GRAD_TAIL_ZMIN))
+    if skipped:
+        bound += '; %d script(s) ran out of time and were skipped (inconclusive)' % skipped
+    return dict(name='posterior-log-density-in-the-tails', bound=bound,
+                rule='cases = (threshold, query) pairs checked; non-trivial = in-bounds rows with z < -38.5 (Phi(z) underflows to 0 in double precision, log Phi(z) is finite)',
+                cases=cases, nontrivial=nontrivial, failures=failures)
